@@ -405,6 +405,7 @@ def check_outputs(body, rep, rule, gk, prog=None):
     from .c16 import created_empty
     opens = [b for b in body.calls() if cnorm(b.term) in ('std::fs::File::create', 'std::fs::File::create_new', 'std::fs::OpenOptions::open')]
     stale = []
+    wrong_path = []
     for c in opens:
         # only the files that receive the key material
         fl = forward_locals(body, [c.term.dest[0]], through_calls=True) if c.term.dest is not None else set()
@@ -413,9 +414,23 @@ def check_outputs(body, rep, rule, gk, prog=None):
         fresh, how = created_empty(body, c)
         if not fresh:
             stale.append('%s (%s)' % (body.loc(c.idx), how))
+        # "the public file always matches the private file": both files are named after the `output` argument (KEY and KEY.pub), never after the input key
+        pa_ = c.term.args[-1] if cnorm(c.term) == 'std::fs::OpenOptions::open' else c.term.args[0]
+        if pa_.place is not None:
+            po_ = origins(body, [pa_.place[0]])
+            argn = set()
+            for x_ in po_.calls:
+                tx = body.blocks[x_].term
+                if tx.cmethod in ('get_one', 'get_many', 'get_raw'):
+                    argn |= {bytes(const_bytes_of(body, a_) or b'') for a_ in tx.args}
+            argn.discard(b'')
+            if argn != {b'output'}:
+                wrong_path.append('%s (named after %s)' % (body.loc(c.idx), sorted(x.decode() for x in argn) or 'no command-line argument'))
     rep.ob(rule, not stale and bool(opens), '%s|%s|outputs-created-empty' % (rule, body.nkey), 'the key files are created empty (File::create / create_new / create+truncate)' if (not stale and opens) else
            'a key file is opened without being emptied (%s): what the path held before survives behind the new key, the same inputs no longer give the same files'
            % (', '.join(stale) or 'no creation call found'), body.loc())
+    rep.ob(rule, not wrong_path, '%s|%s|outputs-named-after-output-argument' % (rule, body.nkey), 'the key files are created at paths derived from the `output` argument only' if not wrong_path else
+           'a key file is created at a path that does not come from the `output` argument alone: %s -- the pair KEY / KEY.pub no longer belongs together' % ', '.join(wrong_path), body.loc())
     ok = kinds == {'public_pem', 'private_der'}
     rep.ob(rule, ok, '%s|%s|outputs' % (rule, body.nkey), 'writes public_as_pem() and private_der of the generated pair' if ok else 'output files do not carry the PEM public key and DER private key of the generated pair (%s)' % sorted(kinds), body.loc())
 
